@@ -124,6 +124,10 @@ func ruleLayering(c *Ctx, rule string) {
 	c.Floor(rule, "store-stack consumers in newChainStore", n, 2)
 	// insecureStore: only Put on the resync branch
 	tn := c.P.Fn("internal/chain/beacon.(*SyncManager).tryNode")
+	fromName := "from"
+	if tn != nil && len(tn.Params) >= 3 {
+		fromName = tn.Params[2].Name() // tryNode(ctx, from, upTo, peer)
+	}
 	nuse := 0
 	for _, f := range c.P.SubjectFns() {
 		if isControlFn(f) {
@@ -146,12 +150,13 @@ func ruleLayering(c *Ctx, rule string) {
 						continue
 					}
 					g := condGuarded(call, func(cond ssa.Value, truth bool) bool {
-						b, ok := cond.(*ssa.BinOp)
-						if !ok || !truth || b.Op != token.GTR {
+						// from > 0 in any spelling (0 < from, from >= 1, !(from <= 0))
+						lo, hi, strict, ok := ordForm(cond, truth)
+						if !ok {
 							return false
 						}
-						k, isK := constInt(b.Y)
-						return isK && k == 0 && pathOf(b.X) == "from"
+						k, isK := constInt(lo)
+						return isK && ((strict && k == 0) || (!strict && k == 1)) && pathOf(hi) == fromName
 					})
 					if !g {
 						good = false
@@ -264,21 +269,19 @@ func ruleAppendStorePut(c *Ctx, rule string) {
 	c.Ok(rule, "appendStore.Put never forwards or accepts a same-round beacon", pos, okSame, fmt.Sprintf("%d same-round edge(s): every return from there is an error and the inner Put is unreachable", len(same)))
 	// already-stored only for identical bytes
 	nAS := 0
-	for _, r := range returnsOf(fn) {
-		for _, o := range returnOperands(r)[0] {
-			if !wrapsGlobalErr(o, "ErrBeaconAlreadyStored") {
-				continue
-			}
-			nAS++
-			g1 := condGuarded(r, func(cond ssa.Value, truth bool) bool {
-				return truth && bytesEqualOn(cond, a+".last.Signature", b+".Signature")
-			})
-			g2 := condGuarded(r, func(cond ssa.Value, truth bool) bool {
-				return truth && bytesEqualOn(cond, a+".last.PreviousSig", b+".PreviousSig")
-			})
-			c.Ok(rule, "appendStore.Put reports already-stored only for identical signature and previous signature", shortPos(c.P, r), g1 && g2,
-				fmt.Sprintf("signature equal: %v, previous signature equal: %v", g1, g2))
+	for _, lf := range returnLeaves(fn, 0) {
+		if !wrapsGlobalErr(lf.v, "ErrBeaconAlreadyStored") {
+			continue
 		}
+		nAS++
+		g1 := condGuarded(lf.at, func(cond ssa.Value, truth bool) bool {
+			return truth && bytesEqualOn(cond, a+".last.Signature", b+".Signature")
+		})
+		g2 := condGuarded(lf.at, func(cond ssa.Value, truth bool) bool {
+			return truth && bytesEqualOn(cond, a+".last.PreviousSig", b+".PreviousSig")
+		})
+		c.Ok(rule, "appendStore.Put reports already-stored only for identical signature and previous signature", shortPos(c.P, lf.at), g1 && g2,
+			fmt.Sprintf("signature equal: %v, previous signature equal: %v", g1, g2))
 	}
 	c.Floor(rule, "already-stored returns in appendStore.Put", nAS, 1)
 	// (iv) last = b after success
